@@ -21,7 +21,9 @@ pub(crate) fn read_ref_alt(src: &mut &[u8], len: usize) -> io::Result<(String, A
         }
     }
 
-    let (raw_reference_bases, raw_alternate_bases) = alleles.split_at(1);
+    let (raw_reference_bases, raw_alternate_bases) = alleles
+        .split_at_checked(1)
+        .ok_or_else(|| io::Error::new(io::ErrorKind::InvalidData, "missing reference bases"))?;
 
     let reference_bases = raw_reference_bases
         .first()
